@@ -12,6 +12,8 @@ git -C /repo worktree remove --force "$WT" 2>/dev/null
 git -C /repo worktree add -f "$WT" HEAD >/dev/null 2>&1 || exit 2
 # the check regenerates lean/PyaModel/Generated/*.lean from the tree it is pointed at: keep the clean tree's files
 GENBAK="$WT.generated"; rm -rf "$GENBAK"; cp -a "$HERE/lean/PyaModel/Generated" "$GENBAK"
+# ... and the evidence files of the clean tree (a run against a patched tree rewrites evidence/<ID>.json)
+EVBAK="$WT.evidence"; rm -rf "$EVBAK"; cp -a "$HERE/evidence" "$EVBAK"
 for id in "$@"; do
   d="$HERE/seeded/$id"; prop=${SEED_PROP:-${id%%-*}}
   git -C "$WT" checkout -q -- . ; git -C "$WT" clean -fdq
@@ -42,4 +44,5 @@ json.dump(m, open(p, "w"), indent=1)
 PY
 done
 rm -rf "$HERE/lean/PyaModel/Generated"; mv "$GENBAK" "$HERE/lean/PyaModel/Generated"
+rm -rf "$HERE/evidence"; mv "$EVBAK" "$HERE/evidence"
 cd /; git -C /repo worktree remove --force "$WT"
